@@ -228,6 +228,7 @@ func absI64(a int64) int64 {
 func runC17(w *vx.W) {
 	thorough := !w.Quick()
 	c17Decoded(w)
+	c17LateFix(w)
 	tzFamily(w, "C17")
 	c17Concurrent(w)
 	// printed-form selection in the quick tier
@@ -522,6 +523,58 @@ func c17DecodedOne(v uint32, big bool) string {
 		return fmt.Sprintf("timestamp %d (big-endian=%v) decodes to %v, the conversion gives %v", v, big, r.Timestamp, wt)
 	}
 	return ""
+}
+
+// c17LateFix: a long activity whose first records carry no time and no position (no fix yet): the values of the
+// later records must come back from Encode / Decode, however many records precede the first one that has them.
+func c17LateFix(w *vx.W) {
+	ks := []int{1023, 1024, 1025, 1026, 4097, 40000}
+	if !w.Quick() {
+		ks = append(ks, 255, 256, 257, 4095, 4096, 8193, 65535, 65536, 65537)
+	}
+	for ki, k := range ks {
+		for o := 0; o < 2; o++ {
+			if !w.Mine(int64(2000 + ki*2 + o)) {
+				continue
+			}
+			f, _ := fit.NewFile(fit.FileTypeActivity, fit.NewHeader(fit.V20, true))
+			fid := fit.VerifNewMesg(0)
+			fid.FieldByName("Type").SetUint(4)
+			f.FileId = fid.Interface().(fit.FileIdMsg)
+			a, _ := f.Activity()
+			n := k + 3
+			for i := 0; i < n; i++ {
+				r := fit.NewRecordMsg()
+				r.HeartRate = uint8(60 + i%100)
+				if i >= k {
+					r.Timestamp = time.Unix(fitmodel.FitEpoch+int64(1000000000+i), 0).UTC()
+					r.PositionLat = fit.NewLatitude(int32(500000000 + i))
+					r.PositionLong = fit.NewLongitude(int32(-100000000 - i))
+				}
+				a.Records = append(a.Records, r)
+			}
+			out, err, pn := safeEncode(f, o == 1)
+			w.Eval(int64(3 * n))
+			w.Fam("late-first-fix", 1)
+			if err != nil || pn != "" {
+				w.Violation("late-fix/encode", fmt.Sprintf("Encode of %d records (first fix at #%d) fails: %v %s", n, k, err, pn), c17Replay{"late-fix", int64(k)})
+				continue
+			}
+			res := safeDecode(bytes.NewReader(out))
+			da, _ := res.File.Activity()
+			if res.Err != nil || res.Panic != "" || da == nil || len(da.Records) != n {
+				w.Violation("late-fix/decode", fmt.Sprintf("%d records (first fix at #%d): decode of the encoded bytes fails or loses records: %v %s", n, k, res.Err, res.Panic), c17Replay{"late-fix", int64(k)})
+				continue
+			}
+			for i, r := range da.Records {
+				want := a.Records[i]
+				if r == nil || !r.Timestamp.Equal(want.Timestamp) || r.PositionLat != want.PositionLat || r.PositionLong != want.PositionLong {
+					w.Violation("late-fix/value", fmt.Sprintf("%d records, the first %d without time and position (big-endian=%v): record #%d comes back as %s, put in %s", n, k, o == 1, i, fitmodel.DumpI(r), fitmodel.DumpI(want)), c17Replay{"late-fix", int64(k)})
+					break
+				}
+			}
+		}
+	}
 }
 
 // c17Concurrent: a free-running (sampled, not exhaustive) pass: eight goroutines encode and decode Files whose
